@@ -3,7 +3,7 @@ import GqlModel.Validate.Engine
 namespace Gql.Validate.Rules
 open Gql Gql.Validate
 
-def nonInputVars (s : Schema) : List VarDef → List RErr
+def nonInputVars (s : SV) : List VarDef → List RErr
   | [] => []
   | v :: rest =>
     match s.type? v.type.name with     -- `def.Definition`, assigned by walkOperation
@@ -14,7 +14,7 @@ def nonInputVars (s : Schema) : List VarDef → List RErr
           :: nonInputVars s rest
       else nonInputVars s rest
 
-def variablesAreInputTypesStep (s : Schema) (_ : QueryDoc) (e : Event) : List RErr :=
+def variablesAreInputTypesStep (s : SV) (_ : QueryDoc) (e : Event) : List RErr :=
   match e.p with
   | .operation op _ => nonInputVars s op.vars
   | _ => []
